@@ -620,10 +620,13 @@ Proof.
   - apply matches_chars.
   - eauto.
   - unfold get_s. destruct (nth_error a i) as [[s|]|]; try discriminate. exists s, []. rewrite app_nil_r. auto.
-  - exists (dec (get_n a i)), []. rewrite app_nil_r. repeat split; [apply dec_nonempty | apply dec_digits].
-  - exists (be_bytes 8 (get_n a i)), []. rewrite app_nil_r. repeat split. apply be_bytes_length.
+  - exists (dec (get_n a i)), []. rewrite app_nil_r.
+    split; [reflexivity | split; [apply dec_nonempty | split; [apply dec_digits | reflexivity]]].
+  - exists (be_bytes 8 (get_n a i)), []. rewrite app_nil_r.
+    split; [reflexivity | split; [apply be_bytes_length | reflexivity]].
   - unfold get_s. destruct (nth_error a i) as [[s|]|]; try discriminate. apply Nat.eqb_eq in V1.
-    exists (x30 :: x78 :: hex s), []. rewrite app_nil_r. repeat split. cbn. rewrite hex_length, V1. reflexivity.
+    exists (x30 :: x78 :: hex s), []. rewrite app_nil_r.
+    split; [reflexivity | split; [cbn [length]; rewrite hex_length, V1; reflexivity | reflexivity]].
   - exists (get_s a i), []. rewrite app_nil_r. auto.
 Qed.
 
@@ -705,10 +708,10 @@ Proof.
     + (* AStr *) destruct B as [|y B]; [discriminate|]. destruct y; cbn in AP; try discriminate.
       cbn in WA, WB. apply andb_true_iff in WA as [SA WA]. apply andb_true_iff in WB as [SB WB].
       destruct MA as (s1 & r1 & -> & N1 & MA). destruct MB as (s2 & r2 & E & N2 & MB).
-      destruct (span_unique not_sep s1 r1 s2 r2) as [-> ->]; auto.
-      * eapply a_starts_sep_stops; eauto.
-      * eapply a_starts_sep_stops; eauto.
-      * eapply IH; eauto.
+      assert (T1 : stops not_sep r1 = true) by (apply (a_starts_sep_stops A r1 SA MA)).
+      assert (T2 : stops not_sep r2 = true) by (apply (a_starts_sep_stops B r2 SB MB)).
+      destruct (span_unique not_sep s1 r1 s2 r2 N1 T1 N2 T2 E) as [-> ->].
+      eapply IH; eauto.
     + (* ADec *) destruct B as [|y B].
       * cbn in MB. subst l. destruct MA as (s & r & E & N & _). destruct s; [congruence | discriminate].
       * destruct y as [d| | |m|]; cbn in AP; try discriminate.
@@ -717,10 +720,10 @@ Proof.
            cbn in D. apply andb_true_iff in D as [D _]. rewrite D in AP. discriminate.
         -- cbn in WA, WB. apply andb_true_iff in WA as [SA WA]. apply andb_true_iff in WB as [SB WB].
            destruct MA as (s1 & r1 & -> & _ & D1 & MA). destruct MB as (s2 & r2 & E & _ & D2 & MB).
-           destruct (span_unique is_digit s1 r1 s2 r2) as [-> ->]; auto.
-           ++ eapply a_starts_nondigit_stops; eauto.
-           ++ eapply a_starts_nondigit_stops; eauto.
-           ++ eapply IH; eauto.
+           assert (T1 : stops is_digit r1 = true) by (apply (a_starts_nondigit_stops A r1 SA MA)).
+           assert (T2 : stops is_digit r2 = true) by (apply (a_starts_nondigit_stops B r2 SB MB)).
+           destruct (span_unique is_digit s1 r1 s2 r2 D1 T1 D2 T2 E) as [-> ->].
+           eapply IH; eauto.
     + (* AFix *) destruct B as [|y B].
       * destruct n; [discriminate|]. cbn in MB. subst l.
         destruct MA as (s & r & E & L & _). destruct s; discriminate.
@@ -747,7 +750,8 @@ Proof. induction s; cbn; auto. Qed.
 
 Lemma wf_awf f : wf f = true -> awf (atoms f) = true.
 Proof.
-  induction f as [|it f IH]; [reflexivity|]. intro W. unfold atoms in *. cbn [flat_map].
+  induction f as [|it f IH]; [reflexivity|]. intro W.
+  change (atoms (it :: f)) with (item_atoms it ++ atoms f).
   destruct it; cbn [wf] in W; cbn [item_atoms app].
   - rewrite awf_chars. auto.
   - cbn. auto.
@@ -785,7 +789,10 @@ Fixpoint split_on (p : byte -> bool) (l : bytes) : list bytes :=
 Definition split_sep : bytes -> list bytes := split_on is_sep.
 
 Lemma split_on_nonempty p l : split_on p l <> [].
-Proof. induction l as [|c r IH]; cbn; [discriminate|]. destruct (p c); [discriminate|]. destruct (split_on p r); [congruence | discriminate]. Qed.
+Proof.
+  induction l as [|c r IH]; cbn [split_on]; [discriminate|].
+  destruct (p c); [discriminate|]. destruct (split_on p r); [congruence | discriminate].
+Qed.
 
 Lemma split_on_free p s : forallb (fun c => negb (p c)) s = true -> split_on p s = [s].
 Proof.
